@@ -750,7 +750,10 @@ func (en *Engine) PushAfterCancelRoom(n, q, variant int) {
 		}
 		r.Cancel(context.Canceled)
 	}
-	before, _ := r.Status()
+	// "nothing is enqueued" is judged by what only these pushes can cause: their results here, and - once Wait() has
+	// returned and nothing is in flight any more - PendingTask = accepted - started (monitor on the Status() call
+	// below). A before/after difference of PendingTask taken while the lane is still running proves nothing: the sum
+	// is not atomic (a task between the buffer and the counter is seen by neither read, and counted later).
 	for l := 0; l < n; l++ {
 		for j := 0; j < q+1; j++ {
 			t := r.NewTask(false, 0, false)
@@ -760,11 +763,8 @@ func (en *Engine) PushAfterCancelRoom(n, q, variant int) {
 			}
 		}
 	}
-	after, _ := r.Status()
-	if after > before {
-		r.Violation("push-after-cancel: PendingTask grew from %d to %d by pushes made after the context ended", before, after)
-	}
 	en.Shutdown(r, true)
+	r.Status() // after Wait(): the monitor requires PendingTask = (#pushes that returned nil) - (#S)
 }
 
 // SharingSubsets: for every target lane L and every set P of pinned workers with L in P and |P| < n,
@@ -1496,19 +1496,18 @@ func (en *Engine) PushAfterCancelTimeouts(n, q int, timeout time.Duration, varia
 		for l := 0; l < n; l++ {
 			r.Push(r.NewTask(false, 0, false), l)
 		}
-		WaitUntil(LiveBound, func() bool { p, _ := r.Status(); return p == 0 })
+		// quiesce: every accepted one has run (a PendingTask of 0 alone would not prove it: the sum is not atomic)
+		r.quiesce(LiveBound)
 		r.Cancel(en.ctxErr())
 	}
-	before, _ := r.Status()
 	bad := 0
 	for i := 0; i < 64; i++ {
 		if res := r.Push(r.NewTask(false, 0, false), i%n); res != "ctx" {
 			bad++
 		}
 	}
-	after, _ := r.Status()
-	if bad > 0 || after > before {
-		r.Violation("push-after-cancel: SetTimeout(%v): %d of 64 PushTask calls begun after the context ended (%v) did not return the context's error; PendingTask %d -> %d (lanes with room %d)", timeout, bad, r.G.ErrNow(), before, after, q)
+	if bad > 0 {
+		r.Violation("push-after-cancel: SetTimeout(%v): %d of 64 PushTask calls begun after the context ended (%v) did not return the context's error (lanes with room %d)", timeout, bad, r.G.ErrNow(), q)
 	}
 	en.Shutdown(r, true)
 	bad = 0
@@ -1520,4 +1519,5 @@ func (en *Engine) PushAfterCancelTimeouts(n, q int, timeout time.Duration, varia
 	if bad > 0 {
 		r.Violation("push-after-cancel: SetTimeout(%v): %d of 16 PushTask calls made after Wait() returned did not return the context's error", timeout, bad)
 	}
+	r.Status() // after Wait(), nothing in flight: the monitor requires PendingTask = (#pushes that returned nil) - (#S)
 }
